@@ -20,20 +20,19 @@ namespace XmppModel.Driver.C15
 open XmppModel XmppModel.Ibb
 
 /-- one piece of a serialised body: `T<hex>` text, `C<hex>` CDATA section, `E<hex>` character
-references, `M<hex>` comment -/
+references -/
 def parseSeg (t : String) : Option Seg :=
   match t.toList with
   | 'T' :: r => (hexDecode (String.ofList r)).map Seg.text
   | 'C' :: r => (hexDecode (String.ofList r)).map Seg.cdata
   | 'E' :: r => (hexDecode (String.ofList r)).map Seg.charRefs
-  | 'M' :: r => (hexDecode (String.ofList r)).map Seg.comment
   | _ => none
 
 /-- the payload field of a `d:` token: plain hex (one piece of text), or pieces joined by `+` -/
 def parseBody (f : String) : Option (List Seg) :=
   match f.toList with
   | c :: _ =>
-    if c = 'T' ∨ c = 'C' ∨ c = 'E' ∨ c = 'M' then mapM? parseSeg (splitList f '+')
+    if c = 'T' ∨ c = 'C' ∨ c = 'E' then mapM? parseSeg (splitList f '+')
     else (hexDecode f).map fun b => [Seg.text b]
   | [] => none
 
@@ -149,8 +148,8 @@ def readersEvent (s : IbbReaders.St) (t : String) : Option IbbReaders.St :=
   | 'P' :: r => do let n ← (String.ofList r).toNat?; IbbReaders.step true s (.packet n)
   | _ => none
 
-/-- `C15 multi <ops>`: several streams on one Handler.  ops `,`-joined: o<sid> a stream with that
-sid is opened and accepted (connections are numbered 0,1,… in this order), d<sid>:<seq>:<payload>
+/-- `C15 multi <ops>`: several streams on one Handler.  ops `,`-joined: o<sid> / O<sid> a stream with that
+sid is opened by the peer / by us and accepted (connections are numbered 0,1,… in this order), d<sid>:<seq>:<payload>
 the peer's data packet, c<sid> the peer's close, C<h> local Close of connection h, r<h>:<n> Read on
 connection h.  answer per op: o / reply / c|inf / c / D<hex>|EOF|BLOCK -/
 def parseHOp (t : String) : Option HOp :=
@@ -158,6 +157,7 @@ def parseHOp (t : String) : Option HOp :=
   | [hd] =>
     match hd.toList with
     | 'o' :: r => (String.ofList r).toNat?.map HOp.open
+    | 'O' :: r => (String.ofList r).toNat?.map HOp.open
     | 'c' :: r => (String.ofList r).toNat?.map HOp.closeSid
     | 'C' :: r => (String.ofList r).toNat?.map HOp.closeLocal
     | _ => none
